@@ -156,6 +156,12 @@ void tmcg_mpz_fhash_ggen
 	delete [] buffer, delete [] digest, delete [] hex_digest;
 }
 
+#ifdef LIBTMCG_VERIF
+/* verification hook H1: reports every (input, output) pair of the hash
+   function that all Fiat-Shamir challenges, tags and digests go through */
+void (*tmcg_verif_shash_hook)(const std::string &input, mpz_srcptr output) = 0;
+#endif
+
 void tmcg_mpz_shash
 	(mpz_ptr r, const std::string &input)
 {
@@ -175,6 +181,10 @@ void tmcg_mpz_shash
 	
 	/* release buffers */
 	delete [] digest, delete [] hex_digest;
+#ifdef LIBTMCG_VERIF
+	if (tmcg_verif_shash_hook)
+		tmcg_verif_shash_hook(input, r);
+#endif
 }
 
 /* Hashing of the public inputs (aka Fiat-Shamir heuristic) with g(),
